@@ -711,7 +711,9 @@ def source_analysis(root):
 
 
 def check_clone_oracle(out, spec, src, clone, pre_cells, src_ser, tag):
-    """faithful / fresh / closed on the real objects; `out.fail` on violation"""
+    """faithful / fresh / closed on the real objects; `out.fail` on violation.
+    Returns True when the clone shares an object with / refers into the original."""
+    entangled = False
     t = spec["target"]
     allow = bool(t.get("allow"))
     case = {"spec": spec}
@@ -729,6 +731,7 @@ def check_clone_oracle(out, spec, src, clone, pre_cells, src_ser, tag):
     cc = cells_of(clone)
     for kind, ids in cc.items():
         if ids & pre_cells[kind]:
+            entangled = True
             out.fail(f"fresh:{kind}:{tag}", f"the clone shares a {kind} object with the original", case)
     # closed
     defined_src, _outer, ordered = source_analysis(src)
@@ -744,6 +747,7 @@ def check_clone_oracle(out, spec, src, clone, pre_cells, src_ser, tag):
                 continue
             if allow and id(v) not in defined_src:
                 continue  # a captured outer value, explicitly allowed
+            entangled = True
             kindsig = "own-value-of-original" if id(v) in defined_src else "outer-value"
             order = "sorted" if ordered else "unsorted"
             out.fail(f"closed:{what}:{kindsig}:{order}:allow={allow}:{tag}",
@@ -757,6 +761,7 @@ def check_clone_oracle(out, spec, src, clone, pre_cells, src_ser, tag):
     for v in values:
         if v._graph is not None and id(v._graph) not in owng:
             out.fail(f"closed:value.graph:{tag}", "clone value owned by a foreign graph", case)
+    return entangled
 
 
 # --------------------------------------------------------------------------- edits on the real objects
@@ -1209,7 +1214,7 @@ def real_case(spec, histories_seed, n_hist, n_edits, out):
     clone_id = heap.add_root(clone)
     res["clone_id"] = clone_id
     res["world1"] = heap.dump()
-    check_clone_oracle(out, spec, src, clone, pre_cells, src_ser, tag)
+    entangled = check_clone_oracle(out, spec, src, clone, pre_cells, src_ser, tag)
     # cloning must not change what the source owns (usage records by clone nodes are excluded by snapshot())
     if [snapshot(r) for r in all_roots] != snap_all_before:
         out.fail(f"clone-side-effect:{sig_shape}", "clone() changed the original", {"spec": spec})
@@ -1217,6 +1222,11 @@ def real_case(spec, histories_seed, n_hist, n_edits, out):
         out.fail(f"clone-side-effect-ser:{sig_shape}", "clone() changed the serialized original", {"spec": spec})
     # edit histories: generated on this build, replayed on fresh builds (ids are deterministic)
     plans = []
+    if entangled:
+        # the clone shares objects with the original (reported above): "edits of one copy leave the other
+        # unchanged" has no independent copy to talk about
+        out.count("histories_skipped_entangled_clone")
+        n_hist = 0
     for h in range(n_hist):
         side = "clone" if h % 2 == 0 else "orig"
         plans.append((side, gen_edits(rng, heap, b, clone if side == "clone" else src, n_edits)))
@@ -1304,7 +1314,10 @@ def map_ids(e, m):
 
 def _worker(args):
     seeds, n_hist, n_edits, size = args
+    import logging
     import random
+
+    logging.disable(logging.CRITICAL)  # the serializer warns about every value without a type
 
     part = Part()
     results = []
